@@ -143,12 +143,15 @@ impl RdfPlanner {
         }
 
         // Create the lazy scanning operator
-        let operator = Box::new(RdfTripleScanOperator::new(
-            Arc::clone(&self.store),
-            pattern,
-            output_mask,
-            self.chunk_size,
-        ));
+        let operator = Box::new(
+            RdfTripleScanOperator::new(
+                Arc::clone(&self.store),
+                pattern,
+                output_mask,
+                self.chunk_size,
+            )
+            .with_tx_id(self.tx_id),
+        );
 
         Ok((operator, columns))
     }
@@ -708,14 +711,17 @@ impl RdfPlanner {
                     .map(|(i, name)| (name.clone(), i))
                     .collect();
 
-                let operator = Box::new(RdfInsertPatternOperator::new(
-                    Arc::clone(&self.store),
-                    input_op,
-                    insert.subject.clone(),
-                    insert.predicate.clone(),
-                    insert.object.clone(),
-                    column_map,
-                ));
+                let operator = Box::new(
+                    RdfInsertPatternOperator::new(
+                        Arc::clone(&self.store),
+                        input_op,
+                        insert.subject.clone(),
+                        insert.predicate.clone(),
+                        insert.object.clone(),
+                        column_map,
+                    )
+                    .with_tx_id(self.tx_id),
+                );
 
                 return Ok((operator, Vec::new()));
             }
@@ -787,14 +793,17 @@ impl RdfPlanner {
                     .map(|(i, name)| (name.clone(), i))
                     .collect();
 
-                let operator = Box::new(RdfDeletePatternOperator::new(
-                    Arc::clone(&self.store),
-                    input_op,
-                    delete.subject.clone(),
-                    delete.predicate.clone(),
-                    delete.object.clone(),
-                    column_map,
-                ));
+                let operator = Box::new(
+                    RdfDeletePatternOperator::new(
+                        Arc::clone(&self.store),
+                        input_op,
+                        delete.subject.clone(),
+                        delete.predicate.clone(),
+                        delete.object.clone(),
+                        column_map,
+                    )
+                    .with_tx_id(self.tx_id),
+                );
 
                 return Ok((operator, Vec::new()));
             }
@@ -817,11 +826,10 @@ impl RdfPlanner {
 
     /// Plans a CLEAR GRAPH operator.
     fn plan_clear_graph(&self, clear: &ClearGraphOp) -> Result<(Box<dyn Operator>, Vec<String>)> {
-        let operator = Box::new(RdfClearGraphOperator::new(
-            Arc::clone(&self.store),
-            clear.graph.clone(),
-            clear.silent,
-        ));
+        let operator = Box::new(
+            RdfClearGraphOperator::new(Arc::clone(&self.store), clear.graph.clone(), clear.silent)
+                .with_tx_id(self.tx_id),
+        );
         Ok((operator, Vec::new()))
     }
 
@@ -841,11 +849,10 @@ impl RdfPlanner {
         // For default graph (None), clear all triples
         // For named graph, we would need named graph support
         if drop_op.graph.is_none() {
-            let operator = Box::new(RdfClearGraphOperator::new(
-                Arc::clone(&self.store),
-                None,
-                drop_op.silent,
-            ));
+            let operator = Box::new(
+                RdfClearGraphOperator::new(Arc::clone(&self.store), None, drop_op.silent)
+                    .with_tx_id(self.tx_id),
+            );
             Ok((operator, Vec::new()))
         } else {
             // Named graphs not yet fully supported
@@ -871,13 +878,16 @@ impl RdfPlanner {
             .map(|(i, name)| (name.clone(), i))
             .collect();
 
-        let operator = Box::new(RdfModifyOperator::new(
-            Arc::clone(&self.store),
-            where_op,
-            modify.delete_templates.clone(),
-            modify.insert_templates.clone(),
-            column_map,
-        ));
+        let operator = Box::new(
+            RdfModifyOperator::new(
+                Arc::clone(&self.store),
+                where_op,
+                modify.delete_templates.clone(),
+                modify.insert_templates.clone(),
+                column_map,
+            )
+            .with_tx_id(self.tx_id),
+        );
 
         Ok((operator, Vec::new()))
     }
@@ -946,6 +956,7 @@ struct RdfInsertPatternOperator {
     predicate: TripleComponent,
     object: TripleComponent,
     column_map: HashMap<String, usize>,
+    tx_id: Option<TxId>,
     done: bool,
 }
 
@@ -965,8 +976,16 @@ impl RdfInsertPatternOperator {
             predicate,
             object,
             column_map,
+            tx_id: None,
             done: false,
         }
+    }
+
+    /// Runs the operator inside the given transaction: its changes go to the
+    /// transaction's buffer instead of the committed triple set.
+    fn with_tx_id(mut self, tx_id: Option<TxId>) -> Self {
+        self.tx_id = tx_id;
+        self
     }
 
     fn resolve_component(
@@ -1059,9 +1078,13 @@ impl Operator for RdfInsertPatternOperator {
             }
         }
 
-        // Insert all collected triples
+        // Insert all collected triples (buffered if in a transaction)
         for triple in triples_to_insert {
-            self.store.insert(triple);
+            if let Some(tx_id) = self.tx_id {
+                self.store.insert_in_tx(tx_id, triple);
+            } else {
+                self.store.insert(triple);
+            }
         }
 
         self.done = true;
@@ -1141,6 +1164,7 @@ struct RdfDeletePatternOperator {
     predicate: TripleComponent,
     object: TripleComponent,
     column_map: HashMap<String, usize>,
+    tx_id: Option<TxId>,
     done: bool,
 }
 
@@ -1160,8 +1184,16 @@ impl RdfDeletePatternOperator {
             predicate,
             object,
             column_map,
+            tx_id: None,
             done: false,
         }
+    }
+
+    /// Runs the operator inside the given transaction: its changes go to the
+    /// transaction's buffer instead of the committed triple set.
+    fn with_tx_id(mut self, tx_id: Option<TxId>) -> Self {
+        self.tx_id = tx_id;
+        self
     }
 
     fn resolve_component(
@@ -1254,9 +1286,13 @@ impl Operator for RdfDeletePatternOperator {
             }
         }
 
-        // Delete all collected triples
+        // Delete all collected triples (buffered if in a transaction)
         for triple in triples_to_delete {
-            self.store.remove(&triple);
+            if let Some(tx_id) = self.tx_id {
+                self.store.remove_in_tx(tx_id, triple);
+            } else {
+                self.store.remove(&triple);
+            }
         }
 
         self.done = true;
@@ -1284,6 +1320,7 @@ struct RdfClearGraphOperator {
     graph: Option<String>,
     #[allow(dead_code)]
     silent: bool,
+    tx_id: Option<TxId>,
     cleared: bool,
 }
 
@@ -1293,8 +1330,16 @@ impl RdfClearGraphOperator {
             store,
             graph,
             silent,
+            tx_id: None,
             cleared: false,
         }
+    }
+
+    /// Runs the operator inside the given transaction: its changes go to the
+    /// transaction's buffer instead of the committed triple set.
+    fn with_tx_id(mut self, tx_id: Option<TxId>) -> Self {
+        self.tx_id = tx_id;
+        self
     }
 }
 
@@ -1304,8 +1349,21 @@ impl Operator for RdfClearGraphOperator {
             return Ok(None);
         }
 
-        // For now, clear all triples (named graph support would filter by graph)
-        self.store.clear();
+        // For now, clear all triples (named graph support would filter by graph).
+        // Inside a transaction the removal of every triple the transaction can see
+        // (committed or pending) is buffered like any other delete.
+        if let Some(tx_id) = self.tx_id {
+            let everything = TriplePattern {
+                subject: None,
+                predicate: None,
+                object: None,
+            };
+            for triple in self.store.find_with_pending(&everything, Some(tx_id)) {
+                self.store.remove_in_tx(tx_id, triple.as_ref().clone());
+            }
+        } else {
+            self.store.clear();
+        }
         self.cleared = true;
 
         Ok(None)
@@ -1374,6 +1432,7 @@ struct RdfModifyOperator {
     delete_templates: Vec<TripleTemplate>,
     insert_templates: Vec<TripleTemplate>,
     column_map: HashMap<String, usize>,
+    tx_id: Option<TxId>,
     done: bool,
 }
 
@@ -1391,8 +1450,16 @@ impl RdfModifyOperator {
             delete_templates,
             insert_templates,
             column_map,
+            tx_id: None,
             done: false,
         }
+    }
+
+    /// Runs the operator inside the given transaction: its changes go to the
+    /// transaction's buffer instead of the committed triple set.
+    fn with_tx_id(mut self, tx_id: Option<TxId>) -> Self {
+        self.tx_id = tx_id;
+        self
     }
 
     fn resolve_component(
@@ -1483,7 +1550,11 @@ impl Operator for RdfModifyOperator {
 
                 if let (Some(s), Some(p), Some(o)) = (subject, predicate, object) {
                     let triple = Triple::new(s, p, o);
-                    self.store.remove(&triple);
+                    if let Some(tx_id) = self.tx_id {
+                        self.store.remove_in_tx(tx_id, triple);
+                    } else {
+                        self.store.remove(&triple);
+                    }
                 }
             }
         }
@@ -1497,7 +1568,11 @@ impl Operator for RdfModifyOperator {
 
                 if let (Some(s), Some(p), Some(o)) = (subject, predicate, object) {
                     let triple = Triple::new(s, p, o);
-                    self.store.insert(triple);
+                    if let Some(tx_id) = self.tx_id {
+                        self.store.insert_in_tx(tx_id, triple);
+                    } else {
+                        self.store.insert(triple);
+                    }
                 }
             }
         }
@@ -1582,6 +1657,8 @@ struct RdfTripleScanOperator {
     triples: Option<Vec<Arc<Triple>>>,
     /// Current position in the triples.
     position: usize,
+    /// Transaction whose pending triple operations the scan must see.
+    tx_id: Option<TxId>,
 }
 
 impl RdfTripleScanOperator {
@@ -1598,13 +1675,20 @@ impl RdfTripleScanOperator {
             chunk_size,
             triples: None,
             position: 0,
+            tx_id: None,
         }
+    }
+
+    /// Makes the scan see the pending inserts and deletes of the given transaction.
+    fn with_tx_id(mut self, tx_id: Option<TxId>) -> Self {
+        self.tx_id = tx_id;
+        self
     }
 
     /// Lazily load matching triples on first access.
     fn ensure_triples(&mut self) {
         if self.triples.is_none() {
-            self.triples = Some(self.store.find(&self.pattern));
+            self.triples = Some(self.store.find_with_pending(&self.pattern, self.tx_id));
         }
     }
 
